@@ -23,7 +23,7 @@ from .core import Relation, err_kind
 _SC = float(os.environ.get("HV_A7_SCALE", "1"))  # development only: scale the budgets
 
 PROP = "C09"
-CLAIMED = False
+CLAIMED = True
 COQ_MODULES = ["Stats", "StatsR", "C15_Model", "C15_Check", "C15_Proofs", "C09_Model", "C09_Check", "C09_Proofs"]
 PROPERTY_MODULE = "C09_Property"
 # exactly as Print Assumptions prints them for the one theorem over the reals
